@@ -39,6 +39,8 @@ type World struct {
 	insliceUsers        map[string]bool                     // packages whose contracts use the builtin inslice (append lemmas are emitted there)
 	localAlias          map[*ssa.Function]map[string]string // recorded local name -> current name (locals.go)
 	renamedLocals       []string
+	renamedFuncs        []string
+	allFuncs            []*ssa.Function
 }
 
 const contractFileName = "zz_contracts_verif.go"
@@ -94,6 +96,7 @@ func loadWorld(repo, verif string) (*World, error) {
 	// index every function
 	for fn := range ssautil.AllFunctions(prog) {
 		w.funcs[fn.String()] = fn
+		w.allFuncs = append(w.allFuncs, fn)
 	}
 	// imported packages' types (for assumed contracts and qualified identifiers)
 	for _, p := range pkgs {
@@ -202,6 +205,7 @@ func loadWorld(repo, verif string) (*World, error) {
 		}
 	}
 	w.expandGhostWildcards()
+	w.recoverRenamedFunctions(verif)
 	w.loadLocalAliases(verif)
 	return w, nil
 }
